@@ -85,6 +85,34 @@ void h_write_header(void)
   __CPROVER_assert((f & 0xF) == ((rec.rcode > 15 && !g_has_opt) ? (unsigned long)ARES_RCODE_SERVFAIL : ((unsigned long)rec.rcode & 0xF)), "C03: RCODE = low four bits of the response code (the rest travels in OPT); without OPT an extended code degrades to SERVFAIL");
   __CPROVER_assert(g_wval[2] == (g_cnt[0] & 0xFFFF) && g_wval[3] == (g_cnt[1] & 0xFFFF) && g_wval[4] == (g_cnt[2] & 0xFFFF) && g_wval[5] == (g_cnt[3] & 0xFFFF), "C03: QDCOUNT ANCOUNT NSCOUNT ARCOUNT");
 }
+#elif defined(T_OPTLIST)
+#include "src/lib/record/ares_dns_mapping.c"
+/* ---------------- option / parameter lists of OPT, SVCB and HTTPS: every entry is written, in order, as id, length, value ---------- */
+#define ON 3
+static size_t g_on; static unsigned short g_oid[ON]; static size_t g_olen[ON]; static unsigned char g_oval[ON][4]; static _Bool g_onull[ON]; static int g_names;
+size_t ares_dns_rr_get_opt_cnt(const ares_dns_rr_t *rr, ares_dns_rr_key_t key) { __CPROVER_assert(key == OPT_KEY, "the option list of this record type"); return g_on; }
+unsigned short ares_dns_rr_get_opt(const ares_dns_rr_t *rr, ares_dns_rr_key_t key, size_t idx, const unsigned char **val, size_t *val_len) { __CPROVER_assert(key == OPT_KEY && idx < g_on, "option index in range"); *val = g_onull[idx] ? NULL : g_oval[idx]; *val_len = g_onull[idx] ? 0 : g_olen[idx]; return g_oid[idx]; }
+unsigned short ares_dns_rr_get_u16(const ares_dns_rr_t *rr, ares_dns_rr_key_t key) { return 7; }
+unsigned char ares_dns_rr_get_u8(const ares_dns_rr_t *rr, ares_dns_rr_key_t key) { return 0; }
+const char *ares_dns_rr_get_str(const ares_dns_rr_t *rr, ares_dns_rr_key_t key) { return "t"; }
+ares_status_t ares_dns_name_write(ares_buf_t *buf, ares_llist_t **list, ares_bool_t validate_hostname, const char *name) { if (g_oom && nondet_bool()) return ARES_ENOMEM; g_names++; g_blen += 3; return ARES_SUCCESS; }
+void h_write_optlist(void)
+{
+  static ares_dns_record_t rec; static ares_dns_rr_t rr; rr.parent = &rec; rec.rcode = (ares_dns_rcode_t)(nondet_uint() % 4096); ares_llist_t *nl = NULL;
+  g_on = nondet_size() % (ON + 1); for (int i = 0; i < ON; i++) { g_oid[i] = nondet_u16(); g_olen[i] = nondet_size() % 4; g_onull[i] = nondet_bool(); for (int j = 0; j < 4; j++) g_oval[i][j] = nondet_uchar(); }
+  g_blen = 40; g_oom = nondet_bool(); g_w = 0; g_names = 0;
+  ares_status_t rv = OPT_CALL(BUF, &rr, &nl);
+  if (rv != ARES_SUCCESS) { __CPROVER_assert(g_oom, "C03/C14: the writer fails only for lack of memory"); return; }
+  /* find the first logged write that belongs to the list: after the fixed prefix of the record type */
+  int k = OPT_PREFIX_WRITES;
+  for (size_t i = 0; i < ON; i++) if (i < g_on) {
+    size_t L = g_onull[i] ? 0 : g_olen[i];
+    __CPROVER_assert(k + 1 < g_w && g_wkind[k] == W_BE16 && g_wval[k] == g_oid[i] && g_wkind[k + 1] == W_BE16 && g_wval[k + 1] == L, "C03: every option / parameter of the record is written, in order, with its code and length -- also one with an empty value (RFC 9460 no-default-alpn, RFC 6891 empty options)");
+    k += 2;
+    if (L > 0) { __CPROVER_assert(k < g_w && g_wkind[k] == W_BYTES && g_wlen[k] == L && g_wptr[k] == (const void *)g_oval[i], "C03: followed by exactly its value bytes"); k++; }
+  }
+  __CPROVER_assert(k == g_w, "C03: nothing else is written for the list");
+}
 #elif defined(T_BINSTR)
 /* ---------------- character-strings: chunks of <= 255 bytes, an empty string is one zero length octet ---------- */
 void h_write_binstr(void)
